@@ -3,9 +3,11 @@ package all
 
 import (
 	_ "hv/props/c01"
+	_ "hv/props/c02"
 	_ "hv/props/c04"
 	_ "hv/props/c05"
 	_ "hv/props/c06"
+	_ "hv/props/c07"
 	_ "hv/props/c11"
 	_ "hv/props/c18"
 )
